@@ -157,6 +157,19 @@ def r_classify_sibling(ck: Checker) -> None:
 def r_normalise(ck: Checker) -> None:
     f = ck.repo.func(TYPING, "get_field_types")
     fn = f.node
+    # a positive pattern: the hints are put together class by class in MRO order with dict.update: a base class comes later than its
+    # subclass in __mro__, so the annotation of the base wins over the override
+    tp0 = fn.args.args[0].arg
+    for lp_ in [st for st in fn.body if isinstance(st, ast.For)]:
+        it_ = lp_.iter
+        mro = (isinstance(it_, ast.Attribute) and it_.attr == "__mro__" and norm(it_.value) == tp0) or \
+            (isinstance(it_, ast.Call) and dotted(it_.func) in ("getmro", "inspect.getmro") and it_.args and norm(it_.args[0]) == tp0) or \
+            (isinstance(it_, ast.Call) and isinstance(it_.func, ast.Attribute) and it_.func.attr == "mro" and norm(it_.func.value) == tp0)
+        if mro and any(isinstance(c, ast.Call) and isinstance(c.func, ast.Attribute) and c.func.attr == "update" for c in walk_body(lp_.body)):
+            ck.violation("R-NORMALISE", f, lp_, "the annotation of a field is the one of the most derived class that declares it (what get_type_hints(cls) gives)",
+                         construct="get_field_types: per-class hints are merged with dict.update while walking __mro__ from the class to its bases: the base's annotation overwrites "
+                         "the subclass's override")
+            return
     loops = [st for st in fn.body if isinstance(st, ast.For)]
     if len(loops) != 1:
         raise Unsupported("get_field_types is not a single loop over fields()", fn)
